@@ -569,6 +569,15 @@ pub fn gen_cfg_kind(rng: &mut Rng, p: &GenProfile, kind: Kind) -> Cfg {
     if kind.is_async() {
         c.ratio = gen_ratio(rng, p.ratio_span, c.chunk);
         c.max_rel = gen_max_rel(rng, p.max_max_rel);
+        if rng.chance(0.03) && p.ratio_span >= 16.0 {
+            // beyond the everyday range: the constructors accept any positive ratio / any max_relative >= 1
+            if rng.bool() {
+                c.ratio = rng.logf(1.0 / 64.0, 64.0);
+            } else {
+                c.max_rel = rng.logf(16.0, 64.0);
+            }
+            c.chunk = c.chunk.min(256);
+        }
         if rng.chance(0.04) {
             // near-integer read positions: power-of-two ratio that can only be nudged by a few ulps
             c.ratio = (2.0f64).powi(rng.ui(0, 8) as i32 - 4).clamp(1.0 / p.ratio_span, p.ratio_span);
@@ -576,7 +585,7 @@ pub fn gen_cfg_kind(rng: &mut Rng, p: &GenProfile, kind: Kind) -> Cfg {
         }
         // keep buffers affordable: chunk*ratio*max_rel and chunk/ratio*max_rel bounded
         let cap = 1.5e5;
-        while (c.chunk as f64) * c.ratio.max(1.0 / c.ratio) * c.max_rel > cap && c.chunk > 1 {
+        while (c.chunk as f64 + 64.0) * c.ratio.max(1.0 / c.ratio) * c.max_rel > cap && c.chunk > 1 {
             c.chunk = (c.chunk / 2).max(1);
         }
     }
@@ -589,6 +598,11 @@ pub fn gen_cfg_kind(rng: &mut Rng, p: &GenProfile, kind: Kind) -> Cfg {
         }
         .min(p.max_sinc_len)
         .max(8);
+        if p.max_sinc_len >= 512 && rng.chance(0.03) {
+            // long filters (calculate_cutoff is specified up to 2048)
+            c.sinc_len = 8 * rng.ui(65, 256);
+            c.chunk = c.chunk.min(512);
+        }
         c.window = *rng.pick(&ALL_WIN);
         c.interp = *rng.pick(&ALL_INTERP);
         c.oversampling = match rng.ui(0, 4) {
